@@ -198,6 +198,19 @@ def directed_scenarios():
         evs = [[["switch-kind", "m1", "foreign"], c01.event_actions(p0, p1), p1, {}],
                [["switch-kind", "m1", "memento"], c01.event_actions(p1, p2), p2, {}]]
         out.append(dict(note="memento -> foreign plain function -> identical memento", program=p0, events=evs))
+    # one memento function reached from one body through two names (its own and an alias); the alias is re-bound to another
+    # memento function, to a plain helper, and back
+    t0 = dict(defs={"m1": f("memento", []), "m2": f("memento", [], const=2), "h1": f("plain", [], const=3),
+                    "m3": f("memento", [["m1", "bare"], ["m1", "alias"]]), "m4": f("memento", [["m3", "bare"]])}, order=["m1", "m2", "h1", "m3", "m4"])
+    for d in t0["defs"].values():
+        d["nest"] = None
+    evs, prev = [], t0
+    for tgt in ("m2", "h1", "m1", "m2"):
+        cur = copy.deepcopy(prev)
+        cur["alias_map"] = {"m1": tgt}
+        evs.append([["rebind-alias", "m1", tgt], [["exec", "mod", "a_m1 = %s\n" % tgt]], cur, {}])
+        prev = cur
+    out.append(dict(note="a function reached through its name and an alias; the alias re-bound", program=t0, events=evs))
     # a plain helper re-defined several times with the same body and only another default value / keyword default /
     # callable default (the code object of the new definition equals the old one)
     q0 = dict(defs={"h1": f("plain", [], dflt=1, kwd=5, dcall=0), "h2": f("plain", [["h1", "bare"]]), "m1": f("memento", [["h2", "bare"]]),
@@ -407,11 +420,32 @@ print(json.dumps(out))
 """
 
 
-def rebinding_kinds_scenario(root):
+RAW_DECLG_MOD = """from twosigma.memento import memento_function
+
+%s
+
+
+@memento_function(dependencies=[g])
+def m1(x):
+    return globals()["g"](x)
+
+
+@memento_function(dependencies=[g])
+def m2(x):
+    return m1(x) + g(x)
+"""
+_G = "@memento_function\ndef g(x):\n    return x + %d"
+RAW_DECLG_STATES = [_G % 1, _G % 2, _G % 1, _G % 3]
+
+
+def rebinding_kinds_scenario(root, template=None, all_states=None, what="rebind-variable-to"):
     """a tracked module variable is re-bound to an int, to a plain function, that function is re-defined, the name is bound to a
-    lambda and back to an int: after every step the in-process versions are those of a fresh process on the resulting module"""
+    lambda and back to an int: after every step the in-process versions are those of a fresh process on the resulting module.
+    (With another template: a memento function named in `dependencies=[...]` declarations is defined again with other code.)"""
     import subprocess
     env = dict(os.environ, PYTHONPATH=common.REPO)
+    RAW_STATE_MOD = template or globals()["RAW_STATE_MOD"]
+    RAW_STATES = all_states or globals()["RAW_STATES"]
 
     def run(first, states):
         sub = tempfile.mkdtemp(prefix="kinds_", dir=root)
@@ -432,7 +466,7 @@ def rebinding_kinds_scenario(root):
     for i, st in enumerate(RAW_STATES):
         fresh = run(st, [])[0]
         if got[i] != fresh:
-            fails.append(dict(clause="version-equals-fresh-process", fn="m1/m2", object="function", event=["rebind-variable-to", st.split("\n")[0]],
+            fails.append(dict(clause="version-equals-fresh-process", fn="m1/m2", object="function", event=[what, st.split("\n")[0] if template is None else st.split("\n")[-1].strip()],
                               events=RAW_STATES[:i + 1], in_process=got[i], fresh=fresh))
             break
     return fails
@@ -669,7 +703,8 @@ def main(chk, replay=None):
     if replay is not None and replay.get("raw_kinds"):
         root = tempfile.mkdtemp(prefix="c13r_")
         try:
-            fails = rebinding_kinds_scenario(root)
+            fails = (rebinding_kinds_scenario(root, RAW_DECLG_MOD, RAW_DECLG_STATES, "redefine-declared-dependency")
+                     if replay.get("raw_kinds") == "declared" else rebinding_kinds_scenario(root))
             print(json.dumps(dict(still_fails=bool(fails), observed=fails[:2]), default=str))
             return 1 if fails else 0
         finally:
@@ -766,6 +801,14 @@ def main(chk, replay=None):
         chk.violation({"what": "after re-binding RATE (%s) the in-process versions are %s but a fresh process computes %s" % (
             f["event"][1], f["in_process"], f["fresh"]), "class": {"clause": f["clause"], "event": "rebind-variable-to-function", "object": "function"},
             "raw_kinds": True, "observed": kfails[:2]})
+    gfails = rebinding_kinds_scenario(chk.tmpdir(), RAW_DECLG_MOD, RAW_DECLG_STATES, "redefine-declared-dependency")
+    chk.case(["declared-dependency-defined-again"], nontrivial=True, sample=dict(fails=gfails[:1]))
+    chk.count("event:redefine-declared-dependency", 3)
+    if gfails:
+        f = gfails[0]
+        chk.violation({"what": "after defining the declared dependency g again (%s) the in-process versions are %s but a fresh process computes %s" % (
+            f["event"][1], f["in_process"], f["fresh"]), "class": {"clause": f["clause"], "event": "redefine-declared-dependency", "object": "function"},
+            "raw_kinds": "declared", "observed": gfails[:2]})
     dfails = declared_dependency_scenarios(chk.tmpdir())
     chk.case(["clones-of-functions-with-declared-dependencies"], nontrivial=True, sample=dict(fails=dfails[:1]))
     chk.count("event:create-clone-of-declared-dependency-function", 6)
